@@ -348,16 +348,19 @@ PROPS["C18"] = dict(
 def _c20_runs(tier):
     rs = [Run(C(), "harness/p_c20.c", ["--setbits=22", "--hang=300"], group="default"),
           Run(C(thread_safe=1), "harness/p_c20.c", ["--setbits=22", "--hang=300"], group="thread-safe"),
-          Run(C(), "harness/p_c20.c", ["--mode=prestate", "--setbits=22", "--hang=300"], group="non-initial-header-cache")]
+          Run(C(), "harness/p_c20.c", ["--mode=prestate", "--setbits=22", "--hang=300"], group="non-initial-header-cache"),
+          Run(C(instr="plain"), "harness/p_c20.c", ["--mode=pnglib", "--setbits=22", "--hang=300"], group="png-all-allocations", common=["harness/vx.c", "harness/alloc_interpose.c"], extra_ldflags=["-Wl,--wrap=m4ri_die"]),
+          # the same without optimisation: locals live in memory, so what a longjmp-based error path returns is what the source says
+          Run(C(instr="plain", opt="-O0"), "harness/p_c20.c", ["--mode=pnglib", "--setbits=22", "--hang=300"], group="png-all-allocations-O0", common=["harness/vx.c", "harness/alloc_interpose.c"], extra_ldflags=["-Wl,--wrap=m4ri_die"])]
     if tier == "thorough":
         rs.append(Run(C(sse2=0, **MIN), "harness/p_c20.c", ["--setbits=22", "--hang=300"], group="min"))
     return rs
 
 PROPS["C20"] = dict(
     level="fault_enumeration", runs=_c20_runs,
-    rule="(non-initial states) create / window / 8 representative operations started with exactly 64, 128, 63, 65 (thorough also 127, 192) matrix headers in use, so that the first header request of the scenario allocates a new header-cache block, takes the last slot of a block or the first of a fresh one; (fresh state) scenarios = every operation of the registry (82 entry points: create/copy, window, every multiplication route, echelon forms, PLE/PLUQ, TRSM, inversion x3, solve, kernel, transpose, permutation application, ...) x 3 shapes (all shapes thorough) + create for 6 size classes (incl. 1 MiB+ blocks and zero-area), window, permutation objects, mzd_from_str, PNG write, PNG read, JCF read, DJB compile+apply (3 sizes), in the default and the thread-safe (caches off) build; for each scenario N = allocation requests counted in a fault-free child, and for EVERY i in 1..N a forked child in which request i fails (posix_memalign -> ENOMEM, malloc/calloc/realloc -> NULL); oracle: child dies by SIGABRT after m4ri_die with a diagnostic, never returns normally, never a sanitizer report or SIGSEGV; 'evaluations' = fault-injected children; non-trivial = an allocation actually failed; distinct = distinct failing call sites (return addresses)",
+    rule="(PNG, all allocations) mzd_to_png / mzd_from_png on 4 shapes with EVERY allocation of the process failing in turn, including libpng's and zlib's own (allocator interposed by symbol definition, plain -O2 and -O0 builds): controlled abort, error return or a complete correct result - never a claimed success with a wrong matrix / file; (non-initial states) create / window / 8 representative operations started with exactly 64, 128, 63, 65 (thorough also 127, 192) matrix headers in use, so that the first header request of the scenario allocates a new header-cache block, takes the last slot of a block or the first of a fresh one; (fresh state) scenarios = every operation of the registry (82 entry points: create/copy, window, every multiplication route, echelon forms, PLE/PLUQ, TRSM, inversion x3, solve, kernel, transpose, permutation application, ...) x 3 shapes (all shapes thorough) + create for 6 size classes (incl. 1 MiB+ blocks and zero-area), window, permutation objects, mzd_from_str, PNG write, PNG read, JCF read, DJB compile+apply (3 sizes), in the default and the thread-safe (caches off) build; for each scenario N = allocation requests counted in a fault-free child, and for EVERY i in 1..N a forked child in which request i fails (posix_memalign -> ENOMEM, malloc/calloc/realloc -> NULL); oracle: child dies by SIGABRT after m4ri_die with a diagnostic, never returns normally, never a sanitizer report or SIGSEGV; 'evaluations' = fault-injected children; non-trivial = an allocation actually failed; distinct = distinct failing call sites (return addresses)",
     level_text="Exhaustive single-fault enumeration: every allocation request of every scenario is made to fail in its own child process and the fate of that process is classified.",
-    level_note="Covers allocation requests issued by m4ri's own code (through the five libc entry points reached by --wrap); libpng's and zlib's internal allocations are outside the wrapper and outside the claim. One failure per run (no multiple faults).",
+    level_note="Covers allocation requests issued by m4ri's own code (through the five libc entry points reached by --wrap); libpng's and zlib's internal allocations are outside the --wrap wrapper; the PNG scenarios are therefore repeated with symbol-level interposition in a sanitizer-free build; outside the claim. One failure per run (no multiple faults).",
     technique="exhaustive single-fault enumeration (i-th allocation fails) on the real code in forked children with fate classification",
     assumptions=["--wrap interposition sees every heap request of m4ri", "fork per injected fault; ASan/UBSan on in the child"],
 )
